@@ -23,12 +23,14 @@ _move_pre = [
     " and packing[i1, IDX_RIGHT_X] <= W",
     "0 <= packing[i1, IDX_BOTTOM_Y] and packing[i1, IDX_BOTTOM_Y] < packing[i1, IDX_TOP_Y]",
     "D_hi <= 2**63 - 1",
+    # R9: the window rows and row i1 have been written in this decoding (no dependence on earlier contents)
+    "forall(k, bin_start, i1 + 1, forall(c, 2, 6, written(packing, k, c)))",
 ]
 
 contract(
     E1 + ":__move_down",
     props="C01 C14",
-    params={"packing": A2("D", cols=6), "bin_start": INT, "i1": INT},
+    params={"packing": A2("D", cols=6, uninit=True), "bin_start": INT, "i1": INT},
     ghosts={"W": INT, "H": INT},
     returns=BOOL,
     requires=_move_pre,
@@ -50,8 +52,11 @@ contract(
             " == old(packing[i1, IDX_TOP_Y] - packing[i1, IDX_BOTTOM_Y])"),
         tag("C01 C14", "result-iff-moved", "result == (packing[i1, IDX_BOTTOM_Y] < old(packing[i1, IDX_BOTTOM_Y]))"),
         tag("C01 C14", "not-up", "0 <= packing[i1, IDX_BOTTOM_Y] and packing[i1, IDX_BOTTOM_Y] <= old(packing[i1, IDX_BOTTOM_Y])"),
-        tag("C01", "no-overlap", "forall(k, bin_start, i1, nov(packing, k, packing[i1, IDX_LEFT_X],"
+        tag("C01 C14", "no-overlap", "forall(k, bin_start, i1, nov(packing, k, packing[i1, IDX_LEFT_X],"
             " packing[i1, IDX_BOTTOM_Y], packing[i1, IDX_RIGHT_X], packing[i1, IDX_TOP_Y]))"),
+        tag("C14", "R5-result-iff-possible", "result == can_down(old(packing), bin_start, i1)"),
+        tag("C14", "R3-no-tunnel", "forall(k, bin_start, i1, implies(xov(packing, k, packing[i1, IDX_LEFT_X], packing[i1, IDX_RIGHT_X])"
+            " and packing[k, IDX_BOTTOM_Y] < old(packing[i1, IDX_TOP_Y]), packing[k, IDX_TOP_Y] <= packing[i1, IDX_BOTTOM_Y]))"),
         tag("C14", "R3-tight", "packing[i1, IDX_BOTTOM_Y] == 0 or exists(k, bin_start, i1,"
             " xov(packing, k, packing[i1, IDX_LEFT_X], packing[i1, IDX_RIGHT_X])"
             " and packing[k, IDX_TOP_Y] == packing[i1, IDX_BOTTOM_Y])"),
@@ -67,7 +72,7 @@ spec("ml_blocker(p, k, l, b, t)", "p[k, IDX_RIGHT_X] <= l and t > p[k, IDX_BOTTO
 contract(
     E1 + ":__move_left",
     props="C01 C14",
-    params={"packing": A2("D", cols=6), "bin_start": INT, "i1": INT},
+    params={"packing": A2("D", cols=6, uninit=True), "bin_start": INT, "i1": INT},
     ghosts={"W": INT, "H": INT},
     returns=BOOL,
     requires=_move_pre,
@@ -93,8 +98,11 @@ contract(
             " == old(packing[i1, IDX_RIGHT_X] - packing[i1, IDX_LEFT_X])"),
         tag("C01 C14", "result-iff-moved", "result == (packing[i1, IDX_LEFT_X] < old(packing[i1, IDX_LEFT_X]))"),
         tag("C01 C14", "not-right", "0 <= packing[i1, IDX_LEFT_X] and packing[i1, IDX_LEFT_X] <= old(packing[i1, IDX_LEFT_X])"),
-        tag("C01", "no-overlap", "forall(k, bin_start, i1, nov(packing, k, packing[i1, IDX_LEFT_X],"
+        tag("C01 C14", "no-overlap", "forall(k, bin_start, i1, nov(packing, k, packing[i1, IDX_LEFT_X],"
             " packing[i1, IDX_BOTTOM_Y], packing[i1, IDX_RIGHT_X], packing[i1, IDX_TOP_Y]))"),
+        tag("C14", "R5-result-iff-possible", "result == can_left(old(packing), bin_start, i1)"),
+        tag("C14", "R4-lower-blocker", "forall(k, bin_start, i1, implies(ml_blocker(old(packing), k, old(packing[i1, IDX_LEFT_X]),"
+            " old(packing[i1, IDX_BOTTOM_Y]), old(packing[i1, IDX_TOP_Y])), packing[k, IDX_RIGHT_X] <= packing[i1, IDX_LEFT_X]))"),
         # R4: the displacement is exactly min(left, min over supports of (right - left_k), min over blockers of (left - right_k))
         tag("C14", "R4-lower-support", "forall(k, bin_start, i1, implies(ml_support(old(packing), k, old(packing[i1, IDX_LEFT_X]),"
             " old(packing[i1, IDX_BOTTOM_Y]), old(packing[i1, IDX_RIGHT_X])),"
@@ -107,3 +115,453 @@ contract(
     ],
     must_fail=["packing[i1, IDX_LEFT_X] == old(packing[i1, IDX_LEFT_X])"],
 )
+
+
+# ------------------------------------------------------------------ C14 vocabulary: "a move is possible"
+spec("can_down(p, bs, i)", "p[i, IDX_BOTTOM_Y] > 0 and forall(k, bs, i, implies(xov(p, k, p[i, IDX_LEFT_X], p[i, IDX_RIGHT_X])"
+     " and p[k, IDX_BOTTOM_Y] < p[i, IDX_TOP_Y], p[k, IDX_TOP_Y] < p[i, IDX_BOTTOM_Y]))", ret="bool")
+spec("can_left(p, bs, i)", "p[i, IDX_LEFT_X] > 0 and forall(k, bs, i, implies(ml_blocker(p, k, p[i, IDX_LEFT_X],"
+     " p[i, IDX_BOTTOM_Y], p[i, IDX_TOP_Y]), p[k, IDX_RIGHT_X] < p[i, IDX_LEFT_X]))", ret="bool")
+spec("can_down2(p, b, bs, be, i)", "p[i, IDX_BOTTOM_Y] > 0 and forall(k, bs, be, implies(p[k, IDX_BIN] == b"
+     " and xov(p, k, p[i, IDX_LEFT_X], p[i, IDX_RIGHT_X])"
+     " and p[k, IDX_BOTTOM_Y] < p[i, IDX_TOP_Y], p[k, IDX_TOP_Y] < p[i, IDX_BOTTOM_Y]))", ret="bool")
+spec("can_left2(p, b, bs, be, i)", "p[i, IDX_LEFT_X] > 0 and forall(k, bs, be, implies(p[k, IDX_BIN] == b"
+     " and ml_blocker(p, k, p[i, IDX_LEFT_X],"
+     " p[i, IDX_BOTTOM_Y], p[i, IDX_TOP_Y]), p[k, IDX_RIGHT_X] < p[i, IDX_LEFT_X]))", ret="bool")
+# orientation rule R2: (w, h) of item x_i: swapped when negated, swapped again when it would not fit otherwise
+spec("w0(inst, xi)", "inst[abs(xi) - 1, IDX_HEIGHT] if xi < 0 else inst[abs(xi) - 1, IDX_WIDTH]")
+spec("h0(inst, xi)", "inst[abs(xi) - 1, IDX_WIDTH] if xi < 0 else inst[abs(xi) - 1, IDX_HEIGHT]")
+spec("orient_ok(inst, xi, W, H, w, h)", "(w == h0(inst, xi) and h == w0(inst, xi)) if (w0(inst, xi) > W or h0(inst, xi) > H)"
+     " else (w == w0(inst, xi) and h == h0(inst, xi))", ret="bool")
+
+# ------------------------------------------------------------------ _decode (encoding 1)
+spec("sizeof(p, k, inst)",
+     "(p[k, IDX_RIGHT_X] - p[k, IDX_LEFT_X] == inst[p[k, IDX_ID] - 1, IDX_WIDTH]"
+     " and p[k, IDX_TOP_Y] - p[k, IDX_BOTTOM_Y] == inst[p[k, IDX_ID] - 1, IDX_HEIGHT])"
+     " or (p[k, IDX_RIGHT_X] - p[k, IDX_LEFT_X] == inst[p[k, IDX_ID] - 1, IDX_HEIGHT]"
+     " and p[k, IDX_TOP_Y] - p[k, IDX_BOTTOM_Y] == inst[p[k, IDX_ID] - 1, IDX_WIDTH])", ret="bool")
+spec("novrows(p, a, c)", "nov(p, a, p[c, IDX_LEFT_X], p[c, IDX_BOTTOM_Y], p[c, IDX_RIGHT_X], p[c, IDX_TOP_Y])", ret="bool")
+spec("rowok(p, k, x, inst, W, H, bid)", "p[k, IDX_ID] == abs(x[k]) and box(p, k, W, H) and sizeof(p, k, inst)"
+     " and 1 <= p[k, IDX_BIN] and p[k, IDX_BIN] <= bid", ret="bool")
+spec("rowwritten(p, k)", "written(p, k, 0) and written(p, k, 1) and written(p, k, 2) and written(p, k, 3)"
+     " and written(p, k, 4) and written(p, k, 5)", ret="bool")
+
+# what binpacking2d.Instance.__new__ and the (signed) permutation space establish
+_decode_pre = [
+    "bin_width >= 1 and bin_height >= 1 and bin_width <= 10**12 and bin_height <= 10**12",
+    "nd >= 1 and len(instance) == nd and n >= nd and len(x) == n and len(y) == n",
+    "forall(k, 0, nd, 1 <= instance[k, IDX_WIDTH] and instance[k, IDX_WIDTH] <= max(bin_width, bin_height)"
+    " and 1 <= instance[k, IDX_HEIGHT] and instance[k, IDX_HEIGHT] <= max(bin_width, bin_height)"
+    " and not (instance[k, IDX_WIDTH] > min(bin_width, bin_height) and instance[k, IDX_HEIGHT] > min(bin_width, bin_height)))",
+    "forall(k, 0, n, x[k] != 0 and -nd <= x[k] and x[k] <= nd)",
+    # storage type of the packing = instance.dtype = int_range_to_dtype(0, max(max_dim + max_size + 1, n_items + 1), signed) (E1)
+    "forall(k, 0, nd, max(bin_width, bin_height) + instance[k, IDX_WIDTH] + 1 <= D_hi"
+    " and max(bin_width, bin_height) + instance[k, IDX_HEIGHT] + 1 <= D_hi)",
+    "n + 1 <= D_hi and D_lo < 0 and D_hi <= 2**63 - 1 and I_hi <= 2**63 - 1 and X_hi <= 2**63 - 1 and X_lo < 0",
+]
+
+_outer_inv_1 = [
+    tag("C01 C13 C14", "scalars", "0 <= bin_start and bin_start <= i and bin_id >= 1 and bin_id <= i + 1"
+        " and implies(i == 0, bin_start == 0 and bin_id == 1) and implies(i > 0, bin_start < i and bin_id <= i)"),
+    tag("C01 C14", "rowok", "forall(k, 0, i, rowok(y, k, x, instance, bin_width, bin_height, bin_id))"),
+    tag("C01 C14", "curbin", "forall(k, 0, i, (k >= bin_start) == (y[k, IDX_BIN] == bin_id))"),
+    tag("C01", "nov", "forall(r, 0, i, forall(s, 0, i, implies(r != s and y[r, IDX_BIN] == y[s, IDX_BIN], novrows(y, r, s))))"),
+    tag("C01", "witness", "forall(b, 1, bin_id, 0 <= first_row[b] and first_row[b] < bin_start and y[first_row[b], IDX_BIN] == b)"),
+    tag("C01 C14", "written", "forall(k, 0, i, rowwritten(y, k))"),
+]
+
+_while_inv_1 = [
+    tag("C01 C13 C14", "geometry", "y[i, IDX_RIGHT_X] - y[i, IDX_LEFT_X] == w and y[i, IDX_TOP_Y] - y[i, IDX_BOTTOM_Y] == h"
+        " and 0 <= y[i, IDX_LEFT_X] and y[i, IDX_RIGHT_X] <= bin_width and 0 <= y[i, IDX_BOTTOM_Y]"
+        " and y[i, IDX_BOTTOM_Y] <= bin_height and y[i, IDX_ID] == use_id + 1"),
+    tag("C01 C14", "frame", "forall(k, 0, n, implies(k != i, rowsame(y, at_loop(y), k)))"),
+    tag("C01 C14", "nov-window", "forall(k, bin_start, i, novrows(y, k, i))"),
+    tag("C01 C14", "written-i", "written(y, i, 0) and written(y, i, 2) and written(y, i, 3) and written(y, i, 4) and written(y, i, 5)"),
+    tag("C01 C14", "written-rows", "forall(k, 0, i, rowwritten(y, k))"),
+]
+
+contract(
+    E1 + ":_decode",
+    props="C01 C14",
+    params={"x": A1("X"), "y": A2("D", cols=6, uninit=True), "instance": A2("I", cols=3),
+            "bin_width": INT, "bin_height": INT},
+    ghosts={"n": INT, "nd": INT, "first_row": A1()},
+    returns=INT,
+    requires=_decode_pre,
+    modifies=["y", "first_row"],
+    calls={"__move_down": {"W": "bin_width", "H": "bin_height"}, "__move_left": {"W": "bin_width", "H": "bin_height"}},
+    # ghost witness: when bin `bin_id` is closed, remember one of its rows (its first one)
+    ghost_code={"after assign bin_id #1": ["first_row[bin_id - 1] = bin_start"]},
+    loops={
+        "0": Loop(inv=_outer_inv_1),
+        "0.0": Loop(inv=_while_inv_1, variant="y[i, IDX_BOTTOM_Y] + y[i, IDX_LEFT_X]",
+                    iter=[tag("C14", "R5-down-first", "implies(can_down(at_iter(y), bin_start, i),"
+                              " y[i, IDX_BOTTOM_Y] < at_iter(y)[i, IDX_BOTTOM_Y] and y[i, IDX_LEFT_X] == at_iter(y)[i, IDX_LEFT_X])"),
+                          tag("C14", "R5-left-only-when-no-down", "implies(not can_down(at_iter(y), bin_start, i),"
+                              " y[i, IDX_BOTTOM_Y] == at_iter(y)[i, IDX_BOTTOM_Y] and y[i, IDX_LEFT_X] < at_iter(y)[i, IDX_LEFT_X])")],
+                    exit=[tag("C14", "R6-stable", "not can_down(y, bin_start, i) and not can_left(y, bin_start, i)"),
+                          tag("C14", "R6-unchanged-on-exit", "rowsame(y, at_iter(y), i)")]),
+    },
+    asserts={
+        "after if #1": [tag("C14", "R2-orientation", "use_id == abs(x[i]) - 1 and item_id == x[i]"
+                            " and orient_ok(instance, x[i], bin_width, bin_height, w, h)")],
+        "after assign y[i,IDX_TOP_Y] #0": [tag("C14", "R1-start", "y[i, IDX_LEFT_X] == bin_width - w and y[i, IDX_BOTTOM_Y] == bin_height"
+                                               " and y[i, IDX_RIGHT_X] == bin_width and y[i, IDX_TOP_Y] == bin_height + h"
+                                               " and y[i, IDX_ID] == abs(x[i])")],
+        "after assign y[i,IDX_TOP_Y] #1": [tag("C14", "R8-new-bin", "y[i, IDX_LEFT_X] == 0 and y[i, IDX_BOTTOM_Y] == 0"
+                                               " and y[i, IDX_RIGHT_X] == w and y[i, IDX_TOP_Y] == h"
+                                               " and bin_id == at_iter(bin_id) + 1 and bin_start == i")],
+        "after assign y[i,IDX_BIN] #0": [tag("C14", "R7-bin-stored", "y[i, IDX_BIN] == bin_id and bin_id >= at_iter(bin_id)"
+                                             " and bin_id <= at_iter(bin_id) + 1")],
+    },
+    branch_iff={"if#2": tag("C14", "R7-new-bin-iff-not-inside",
+                            "not (y[i, IDX_RIGHT_X] <= bin_width and y[i, IDX_TOP_Y] <= bin_height)")},
+    ensures=[
+        tag("C01", "bin-count", "1 <= result and result <= n"),
+        tag("C01", "rows-feasible", "forall(k, 0, n, rowok(y, k, x, instance, bin_width, bin_height, result))"),
+        tag("C01", "no-overlap", "forall(r, 0, n, forall(s, 0, n, implies(r != s and y[r, IDX_BIN] == y[s, IDX_BIN], novrows(y, r, s))))"),
+        tag("C01", "bins-gap-free", "forall(b, 1, result, 0 <= first_row[b] and first_row[b] < n and y[first_row[b], IDX_BIN] == b)"
+            " and 0 <= bin_start and bin_start < n and y[bin_start, IDX_BIN] == result"),
+        tag("C14", "all-written", "forall(k, 0, n, rowwritten(y, k))"),
+    ],
+    must_fail=["result == 1"],
+)
+
+
+# ------------------------------------------------------------------ concrete generators
+import numpy as np  # noqa: E402
+from pyvc.spec import CONTRACTS  # noqa: E402
+
+
+def rand_instance(rng, max_items=7):
+    from moptipyapps.binpacking2d.instance import Instance
+    mode = rng.random()
+    if mode < 0.15:       # sizes at the edge of int8 / int16
+        edge = rng.choice([127, 32767])
+        W = rng.randint(1, max(1, edge // 2 - 1))
+        H = rng.randint(1, max(1, edge // 2 - 1))
+    else:
+        W, H = rng.randint(1, 12), rng.randint(1, 12)
+    mx, mn = max(W, H), min(W, H)
+    items = []
+    nd = rng.randint(1, 4)
+    total = 0
+    for _ in range(nd):
+        while True:
+            w, h = rng.randint(1, mx), rng.randint(1, mx)
+            if rng.random() < 0.3:
+                w = rng.choice([1, mn, mx, W, H])
+            if rng.random() < 0.3:
+                h = rng.choice([1, mn, mx, W, H])
+            if not (w > mn and h > mn):
+                break
+        rep = rng.randint(1, 3)
+        if total + rep > max_items:
+            rep = max(1, max_items - total)
+        total += rep
+        items.append([w, h, rep])
+        if total >= max_items:
+            break
+    return Instance("t", W, H, items)
+
+
+def rand_signed_perm(rng, inst):
+    seq = []
+    for k in range(inst.n_different_items):
+        seq += [k + 1] * int(inst[k, 2])
+    rng.shuffle(seq)
+    return np.array([v if rng.random() < 0.5 else -v for v in seq], dtype=inst.dtype)
+
+
+def garbage(rng, shape, dtype):
+    info = np.iinfo(dtype)
+    a = np.empty(shape, dtype)
+    flat = a.reshape(-1)
+    for k in range(flat.shape[0]):
+        flat[k] = rng.choice([info.min, info.max, -1, 0, 1, 7, rng.randint(max(info.min, -1000), min(info.max, 1000))])
+    return a
+
+
+def _gen_decode1(rng):
+    inst = rand_instance(rng)
+    x = rand_signed_perm(rng, inst)
+    n = len(x)
+    return {"x": x, "y": garbage(rng, (n, 6), inst.dtype), "instance": np.array(inst), "bin_width": int(inst.bin_width),
+            "bin_height": int(inst.bin_height), "n": n, "nd": int(inst.n_different_items),
+            "first_row": np.zeros(n + 2, np.int64)}
+
+
+def _call_decode1(inp):
+    from moptipyapps.binpacking2d.encodings.ibl_encoding_1 import _decode
+    return int(_decode(inp["x"], inp["y"], inp["instance"], inp["bin_width"], inp["bin_height"]))
+
+
+def _gen_move1(rng):
+    """a decoded prefix plus the next item at its start position (optionally after a few real moves)"""
+    import moptipyapps.binpacking2d.encodings.ibl_encoding_1 as m
+    d = _gen_decode1(rng)
+    n = d["n"]
+    y = d["y"]
+    m._decode(d["x"], y, d["instance"], d["bin_width"], d["bin_height"])
+    i1 = rng.randrange(n)
+    b = int(y[i1, 1])
+    bin_start = min(k for k in range(n) if y[k, 1] == b)
+    w, h = int(y[i1, 4] - y[i1, 2]), int(y[i1, 5] - y[i1, 3])
+    W, H = d["bin_width"], d["bin_height"]
+    y[i1, 2:6] = [W - w, H, W, H + h]
+    md = getattr(m, "__move_down", None) or m.__dict__["__move_down"]
+    ml = m.__dict__["__move_left"]
+    for _ in range(rng.randint(0, 3)):
+        (md if rng.random() < 0.6 else ml)(y, bin_start, i1)
+    # rows after i1 are garbage from the decoder's point of view
+    for k in range(i1 + 1, n):
+        y[k, :] = garbage(rng, (6,), y.dtype)
+    return {"packing": y, "bin_start": bin_start, "i1": i1, "W": W, "H": H}
+
+
+def _mk_call_move(name):
+    def call(inp):
+        import moptipyapps.binpacking2d.encodings.ibl_encoding_1 as m
+        return bool(m.__dict__[name](inp["packing"], inp["bin_start"], inp["i1"]))
+    return call
+
+
+CONTRACTS[E1 + ":_decode"].gen = _gen_decode1
+CONTRACTS[E1 + ":_decode"].call = _call_decode1
+for _nm in ("__move_down", "__move_left"):
+    CONTRACTS[E1 + ":" + _nm].gen = _gen_move1
+    CONTRACTS[E1 + ":" + _nm].call = _mk_call_move(_nm)
+
+
+# ====================================================================== encoding 2
+E2 = "moptipyapps.binpacking2d.encodings.ibl_encoding_2"
+
+# window of encoding 2: rows k in [bin_start, bin_end) whose bin id is bin_id
+spec("inw(p, k, bin_id, bin_start, bin_end)", "bin_start <= k and k < bin_end and p[k, IDX_BIN] == bin_id", ret="bool")
+
+_move_pre_2 = [
+    "0 <= bin_start and bin_start <= bin_end and bin_end <= i1 and i1 < len(packing)",
+    "W >= 1 and H >= 1",
+    "forall(k, bin_start, bin_end, implies(packing[k, IDX_BIN] == bin_id, box(packing, k, W, H)))",
+    "forall(k, bin_start, bin_end, implies(packing[k, IDX_BIN] == bin_id, novrows(packing, k, i1)))",
+    "0 <= packing[i1, IDX_LEFT_X] and packing[i1, IDX_LEFT_X] < packing[i1, IDX_RIGHT_X]"
+    " and packing[i1, IDX_RIGHT_X] <= W",
+    "0 <= packing[i1, IDX_BOTTOM_Y] and packing[i1, IDX_BOTTOM_Y] < packing[i1, IDX_TOP_Y]",
+    "D_hi <= 2**63 - 1",
+    "forall(k, bin_start, bin_end, forall(c, 1, 6, written(packing, k, c)))",
+    "forall(c, 2, 6, written(packing, i1, c))",
+]
+_params_2 = {"packing": A2("D", cols=6, uninit=True), "bin_id": INT, "bin_start": INT, "bin_end": INT, "i1": INT}
+
+contract(
+    E2 + ":__move_down",
+    props="C01 C14",
+    params=_params_2, ghosts={"W": INT, "H": INT}, returns=BOOL,
+    requires=_move_pre_2, modifies=["packing"],
+    loops={"0": Loop(inv=[
+        tag("C01 C14", "md-range", "0 <= min_down and min_down <= packing_i1_bottom_y"),
+        tag("C01 C14", "md-lower", "forall(k, bin_start, i0, implies(packing[k, IDX_BIN] == bin_id"
+            " and xov(packing, k, packing_i1_left_x, packing_i1_right_x)"
+            " and packing[k, IDX_BOTTOM_Y] < packing_i1_top_y, min_down <= packing_i1_bottom_y - packing[k, IDX_TOP_Y]))"),
+        tag("C14", "md-tight", "min_down == packing_i1_bottom_y or exists(k, bin_start, i0, packing[k, IDX_BIN] == bin_id"
+            " and xov(packing, k, packing_i1_left_x, packing_i1_right_x) and packing[k, IDX_BOTTOM_Y] < packing_i1_top_y"
+            " and min_down == packing_i1_bottom_y - packing[k, IDX_TOP_Y])"),
+    ])},
+    ensures=[
+        tag("C01 C14", "frame", "forall(k, 0, len(packing), implies(k != i1, rowsame(packing, old(packing), k)))"),
+        tag("C01 C14", "frame-row", "packing[i1, 0] == old(packing[i1, 0]) and packing[i1, 1] == old(packing[i1, 1])"
+            " and packing[i1, IDX_LEFT_X] == old(packing[i1, IDX_LEFT_X])"
+            " and packing[i1, IDX_RIGHT_X] == old(packing[i1, IDX_RIGHT_X])"),
+        tag("C01 C14", "height", "packing[i1, IDX_TOP_Y] - packing[i1, IDX_BOTTOM_Y]"
+            " == old(packing[i1, IDX_TOP_Y] - packing[i1, IDX_BOTTOM_Y])"),
+        tag("C01 C14", "result-iff-moved", "result == (packing[i1, IDX_BOTTOM_Y] < old(packing[i1, IDX_BOTTOM_Y]))"),
+        tag("C01 C14", "not-up", "0 <= packing[i1, IDX_BOTTOM_Y] and packing[i1, IDX_BOTTOM_Y] <= old(packing[i1, IDX_BOTTOM_Y])"),
+        tag("C01 C14", "no-overlap", "forall(k, bin_start, bin_end, implies(packing[k, IDX_BIN] == bin_id, novrows(packing, k, i1)))"),
+        tag("C14", "R5-result-iff-possible", "result == can_down2(old(packing), bin_id, bin_start, bin_end, i1)"),
+        tag("C14", "R3-no-tunnel", "forall(k, bin_start, bin_end, implies(packing[k, IDX_BIN] == bin_id"
+            " and xov(packing, k, packing[i1, IDX_LEFT_X], packing[i1, IDX_RIGHT_X])"
+            " and packing[k, IDX_BOTTOM_Y] < old(packing[i1, IDX_TOP_Y]), packing[k, IDX_TOP_Y] <= packing[i1, IDX_BOTTOM_Y]))"),
+        tag("C14", "R3-tight", "packing[i1, IDX_BOTTOM_Y] == 0 or exists(k, bin_start, bin_end, packing[k, IDX_BIN] == bin_id"
+            " and xov(packing, k, packing[i1, IDX_LEFT_X], packing[i1, IDX_RIGHT_X])"
+            " and packing[k, IDX_TOP_Y] == packing[i1, IDX_BOTTOM_Y])"),
+    ],
+    must_fail=["packing[i1, IDX_BOTTOM_Y] == old(packing[i1, IDX_BOTTOM_Y])"],
+)
+
+contract(
+    E2 + ":__move_left",
+    props="C01 C14",
+    params=_params_2, ghosts={"W": INT, "H": INT}, returns=BOOL,
+    requires=_move_pre_2, modifies=["packing"],
+    loops={"0": Loop(inv=[
+        tag("C01 C14", "ml-range", "0 <= min_left and min_left <= packing_i1_left_x"),
+        tag("C01 C14", "ml-lower-support", "forall(k, bin_start, i0, implies(packing[k, IDX_BIN] == bin_id"
+            " and ml_support(packing, k, packing_i1_left_x,"
+            " packing_i1_bottom_y, packing_i1_right_x), min_left <= packing_i1_right_x - packing[k, IDX_LEFT_X]))"),
+        tag("C01 C14", "ml-lower-blocker", "forall(k, bin_start, i0, implies(packing[k, IDX_BIN] == bin_id"
+            " and ml_blocker(packing, k, packing_i1_left_x,"
+            " packing_i1_bottom_y, packing_i1_top_y), min_left <= packing_i1_left_x - packing[k, IDX_RIGHT_X]))"),
+        tag("C14", "ml-tight", "min_left == packing_i1_left_x"
+            " or exists(k, bin_start, i0, packing[k, IDX_BIN] == bin_id and ml_support(packing, k, packing_i1_left_x,"
+            " packing_i1_bottom_y, packing_i1_right_x) and min_left == packing_i1_right_x - packing[k, IDX_LEFT_X])"
+            " or exists(k, bin_start, i0, packing[k, IDX_BIN] == bin_id and ml_blocker(packing, k, packing_i1_left_x,"
+            " packing_i1_bottom_y, packing_i1_top_y) and min_left == packing_i1_left_x - packing[k, IDX_RIGHT_X])"),
+    ])},
+    ensures=[
+        tag("C01 C14", "frame", "forall(k, 0, len(packing), implies(k != i1, rowsame(packing, old(packing), k)))"),
+        tag("C01 C14", "frame-row", "packing[i1, 0] == old(packing[i1, 0]) and packing[i1, 1] == old(packing[i1, 1])"
+            " and packing[i1, IDX_BOTTOM_Y] == old(packing[i1, IDX_BOTTOM_Y])"
+            " and packing[i1, IDX_TOP_Y] == old(packing[i1, IDX_TOP_Y])"),
+        tag("C01 C14", "width", "packing[i1, IDX_RIGHT_X] - packing[i1, IDX_LEFT_X]"
+            " == old(packing[i1, IDX_RIGHT_X] - packing[i1, IDX_LEFT_X])"),
+        tag("C01 C14", "result-iff-moved", "result == (packing[i1, IDX_LEFT_X] < old(packing[i1, IDX_LEFT_X]))"),
+        tag("C01 C14", "not-right", "0 <= packing[i1, IDX_LEFT_X] and packing[i1, IDX_LEFT_X] <= old(packing[i1, IDX_LEFT_X])"),
+        tag("C01 C14", "no-overlap", "forall(k, bin_start, bin_end, implies(packing[k, IDX_BIN] == bin_id, novrows(packing, k, i1)))"),
+        tag("C14", "R5-result-iff-possible", "result == can_left2(old(packing), bin_id, bin_start, bin_end, i1)"),
+        tag("C14", "R4-lower-blocker", "forall(k, bin_start, bin_end, implies(packing[k, IDX_BIN] == bin_id"
+            " and ml_blocker(old(packing), k, old(packing[i1, IDX_LEFT_X]),"
+            " old(packing[i1, IDX_BOTTOM_Y]), old(packing[i1, IDX_TOP_Y])), packing[k, IDX_RIGHT_X] <= packing[i1, IDX_LEFT_X]))"),
+        tag("C14", "R4-lower-support", "forall(k, bin_start, bin_end, implies(packing[k, IDX_BIN] == bin_id"
+            " and ml_support(old(packing), k, old(packing[i1, IDX_LEFT_X]),"
+            " old(packing[i1, IDX_BOTTOM_Y]), old(packing[i1, IDX_RIGHT_X])),"
+            " old(packing[i1, IDX_LEFT_X]) - packing[i1, IDX_LEFT_X] <= old(packing[i1, IDX_RIGHT_X]) - packing[k, IDX_LEFT_X]))"),
+        tag("C14", "R4-tight", "packing[i1, IDX_LEFT_X] == 0"
+            " or exists(k, bin_start, bin_end, packing[k, IDX_BIN] == bin_id and ml_support(old(packing), k,"
+            " old(packing[i1, IDX_LEFT_X]), old(packing[i1, IDX_BOTTOM_Y]),"
+            " old(packing[i1, IDX_RIGHT_X])) and packing[i1, IDX_RIGHT_X] == packing[k, IDX_LEFT_X])"
+            " or exists(k, bin_start, bin_end, packing[k, IDX_BIN] == bin_id and ml_blocker(old(packing), k,"
+            " old(packing[i1, IDX_LEFT_X]), old(packing[i1, IDX_BOTTOM_Y]),"
+            " old(packing[i1, IDX_TOP_Y])) and packing[i1, IDX_LEFT_X] == packing[k, IDX_RIGHT_X])"),
+    ],
+    must_fail=["packing[i1, IDX_LEFT_X] == old(packing[i1, IDX_LEFT_X])"],
+)
+
+_outer_inv_2 = [
+    tag("C01 C13 C14", "scalars", "bin_id >= 1 and implies(i == 0, bin_id == 1) and implies(i > 0, bin_id <= i)"
+        " and len(bin_starts) == n and len(bin_ends) == n"),
+    tag("C01 C14", "rowok", "forall(k, 0, i, rowok(y, k, x, instance, bin_width, bin_height, bin_id))"),
+    tag("C01 C13 C14", "windows", "forall(b, 1, bin_id + 1, 0 <= bin_starts[b - 1] and bin_starts[b - 1] <= bin_ends[b - 1]"
+        " and bin_ends[b - 1] <= i and implies(i > 0, bin_starts[b - 1] < bin_ends[b - 1]"
+        " and y[bin_starts[b - 1], IDX_BIN] == b))"),
+    tag("C01 C14", "inwin", "forall(k, 0, i, bin_starts[y[k, IDX_BIN] - 1] <= k and k < bin_ends[y[k, IDX_BIN] - 1])"),
+    tag("C01", "nov", "forall(r, 0, i, forall(s, 0, i, implies(r != s and y[r, IDX_BIN] == y[s, IDX_BIN], novrows(y, r, s))))"),
+    tag("C01 C14", "written", "forall(k, 0, i, rowwritten(y, k))"),
+    tag("C01 C14", "written-windows", "forall(b, 0, bin_id, written(bin_starts, b) and written(bin_ends, b))"),
+]
+# bins loop (for item_bin in range(1, bin_id + 1))
+_bins_inv_2 = [
+    tag("C01 C13 C14", "bins-range", "1 <= item_bin and y[i, IDX_ID] == use_id + 1 and written(y, i, 0) and not_found"),
+    # the first item always fits the (empty) first bin: for i == 0 the loop cannot get past its first iteration
+    tag("C01 C13 C14", "first-item-fits", "implies(i == 0, item_bin == 1)"),
+    tag("C01 C14", "bins-frame", "forall(k, 0, n, implies(k != i, rowsame(y, at_loop(y), k)))"),
+    tag("C01 C14", "bins-frame-se", "same_array(bin_starts, at_loop(bin_starts)) and same_array(bin_ends, at_loop(bin_ends))"),
+    tag("C01 C14", "bins-written", "forall(k, 0, i, rowwritten(y, k)) and forall(b, 0, bin_id, written(bin_starts, b) and written(bin_ends, b))"),
+]
+_while_inv_2 = [
+    tag("C01 C13 C14", "geometry", "y[i, IDX_RIGHT_X] - y[i, IDX_LEFT_X] == w and y[i, IDX_TOP_Y] - y[i, IDX_BOTTOM_Y] == h"
+        " and 0 <= y[i, IDX_LEFT_X] and y[i, IDX_RIGHT_X] <= bin_width and 0 <= y[i, IDX_BOTTOM_Y]"
+        " and y[i, IDX_BOTTOM_Y] <= bin_height and y[i, IDX_ID] == use_id + 1"),
+    tag("C01 C14", "frame", "forall(k, 0, n, implies(k != i, rowsame(y, at_loop(y), k)))"),
+    tag("C01 C14", "nov-window", "forall(k, bin_start, bin_end, implies(y[k, IDX_BIN] == item_bin, novrows(y, k, i)))"),
+    tag("C01 C14", "written-i", "written(y, i, 0) and written(y, i, 2) and written(y, i, 3) and written(y, i, 4) and written(y, i, 5)"),
+    tag("C01 C14", "written-rows", "forall(k, 0, i, rowwritten(y, k))"),
+]
+
+contract(
+    E2 + ":_decode",
+    props="C01 C14",
+    params={"x": A1("X"), "y": A2("D", cols=6, uninit=True), "instance": A2("I", cols=3),
+            "bin_width": INT, "bin_height": INT, "bin_starts": A1("D", uninit=True), "bin_ends": A1("D", uninit=True)},
+    ghosts={"n": INT, "nd": INT},
+    returns=INT,
+    requires=_decode_pre + ["len(bin_starts) == n and len(bin_ends) == n"],
+    modifies=["y", "bin_starts", "bin_ends"],
+    calls={"__move_down": {"W": "bin_width", "H": "bin_height"}, "__move_left": {"W": "bin_width", "H": "bin_height"}},
+    loops={
+        "0": Loop(inv=_outer_inv_2),
+        "0.0": Loop(inv=_bins_inv_2, range_is=("1", "bin_id + 1")),     # R7: all open bins, starting with the first
+        "0.0.0": Loop(inv=_while_inv_2, variant="y[i, IDX_BOTTOM_Y] + y[i, IDX_LEFT_X]",
+                      iter=[tag("C14", "R5-down-first", "implies(can_down2(at_iter(y), item_bin, bin_start, bin_end, i),"
+                                " y[i, IDX_BOTTOM_Y] < at_iter(y)[i, IDX_BOTTOM_Y] and y[i, IDX_LEFT_X] == at_iter(y)[i, IDX_LEFT_X])"),
+                            tag("C14", "R5-left-only-when-no-down", "implies(not can_down2(at_iter(y), item_bin, bin_start, bin_end, i),"
+                                " y[i, IDX_BOTTOM_Y] == at_iter(y)[i, IDX_BOTTOM_Y] and y[i, IDX_LEFT_X] < at_iter(y)[i, IDX_LEFT_X])")],
+                      exit=[tag("C14", "R6-stable", "not can_down2(y, item_bin, bin_start, bin_end, i)"
+                                " and not can_left2(y, item_bin, bin_start, bin_end, i)"),
+                            tag("C14", "R6-unchanged-on-exit", "rowsame(y, at_iter(y), i)")]),
+    },
+    asserts={
+        "after if #1": [tag("C14", "R2-orientation", "use_id == abs(x[i]) - 1 and item_id == x[i]"
+                            " and orient_ok(instance, x[i], bin_width, bin_height, w, h)")],
+        "after assign bin_end #0": [tag("C14", "R7-window-of-bin", "bin_start == bin_starts[item_bin - 1]"
+                                        " and bin_end == bin_ends[item_bin - 1]")],
+        "after assign y[i,IDX_TOP_Y] #0": [tag("C14", "R1-start", "y[i, IDX_LEFT_X] == bin_width - w and y[i, IDX_BOTTOM_Y] == bin_height"
+                                               " and y[i, IDX_RIGHT_X] == bin_width and y[i, IDX_TOP_Y] == bin_height + h"
+                                               " and y[i, IDX_ID] == abs(x[i])")],
+        "after assign y[i,IDX_BIN] #0": [tag("C14", "R7-first-fit", "y[i, IDX_BIN] == item_bin")],
+        "after assign y[i,IDX_BIN] #1": [tag("C14", "R8-new-bin", "y[i, IDX_LEFT_X] == 0 and y[i, IDX_BOTTOM_Y] == 0"
+                                             " and y[i, IDX_RIGHT_X] == w and y[i, IDX_TOP_Y] == h"
+                                             " and bin_id == at_iter(bin_id) + 1 and y[i, IDX_BIN] == bin_id")],
+    },
+    branch_iff={"if#2": tag("C14", "R7-take-bin-iff-inside", "y[i, IDX_RIGHT_X] <= bin_width and y[i, IDX_TOP_Y] <= bin_height"),
+                "if#3": tag("C14", "R7-new-bin-iff-none-fits", "not_found")},
+    ensures=[
+        tag("C01", "bin-count", "1 <= result and result <= n"),
+        tag("C01", "rows-feasible", "forall(k, 0, n, rowok(y, k, x, instance, bin_width, bin_height, result))"),
+        tag("C01", "no-overlap", "forall(r, 0, n, forall(s, 0, n, implies(r != s and y[r, IDX_BIN] == y[s, IDX_BIN], novrows(y, r, s))))"),
+        tag("C01", "bins-gap-free", "forall(b, 1, result + 1, 0 <= bin_starts[b - 1] and bin_starts[b - 1] < n"
+            " and y[bin_starts[b - 1], IDX_BIN] == b)"),
+        tag("C14", "all-written", "forall(k, 0, n, rowwritten(y, k))"),
+    ],
+    must_fail=["result == 1"],
+)
+
+
+def _gen_decode2(rng):
+    d = _gen_decode1(rng)
+    d.pop("first_row")
+    n = d["n"]
+    d["bin_starts"] = garbage(rng, (n,), d["y"].dtype)
+    d["bin_ends"] = garbage(rng, (n,), d["y"].dtype)
+    return d
+
+
+def _call_decode2(inp):
+    from moptipyapps.binpacking2d.encodings.ibl_encoding_2 import _decode
+    return int(_decode(inp["x"], inp["y"], inp["instance"], inp["bin_width"], inp["bin_height"],
+                       inp["bin_starts"], inp["bin_ends"]))
+
+
+def _gen_move2(rng):
+    import moptipyapps.binpacking2d.encodings.ibl_encoding_2 as m
+    d = _gen_decode2(rng)
+    n, y = d["n"], d["y"]
+    nb = m._decode(d["x"], y, d["instance"], d["bin_width"], d["bin_height"], d["bin_starts"], d["bin_ends"])
+    i1 = rng.randrange(n)
+    # the window of some bin as it looked when item i1 was tried: rows < i1 of that bin
+    bins = sorted({int(y[k, 1]) for k in range(i1)}) or [1]
+    b = rng.choice(bins)
+    rows = [k for k in range(i1) if y[k, 1] == b]
+    bin_start, bin_end = (rows[0], rows[-1] + 1) if rows else (0, 0)
+    w, h = int(y[i1, 4] - y[i1, 2]), int(y[i1, 5] - y[i1, 3])
+    W, H = d["bin_width"], d["bin_height"]
+    y[i1, 2:6] = [W - w, H, W, H + h]
+    md, ml = m.__dict__["__move_down"], m.__dict__["__move_left"]
+    for _ in range(rng.randint(0, 3)):
+        (md if rng.random() < 0.6 else ml)(y, b, bin_start, bin_end, i1)
+    for k in range(i1 + 1, n):
+        y[k, :] = garbage(rng, (6,), y.dtype)
+    return {"packing": y, "bin_id": b, "bin_start": bin_start, "bin_end": bin_end, "i1": i1, "W": W, "H": H}
+
+
+def _mk_call_move2(name):
+    def call(inp):
+        import moptipyapps.binpacking2d.encodings.ibl_encoding_2 as m
+        return bool(m.__dict__[name](inp["packing"], inp["bin_id"], inp["bin_start"], inp["bin_end"], inp["i1"]))
+    return call
+
+
+CONTRACTS[E2 + ":_decode"].gen = _gen_decode2
+CONTRACTS[E2 + ":_decode"].call = _call_decode2
+for _nm in ("__move_down", "__move_left"):
+    CONTRACTS[E2 + ":" + _nm].gen = _gen_move2
+    CONTRACTS[E2 + ":" + _nm].call = _mk_call_move2(_nm)
